@@ -2,7 +2,7 @@ SPECIFICATION Spec
 CONSTANTS
   ReqV4 = {"f1"}
   ReqV6 = {"s1"}
-  ReqDual = {"d1", "d2", "d3"}
+  ReqDual = {"d1", "d2"}
   Reloads = {"m1", "m2", "m3"}
   ToB = {"m1", "m3"}
   Protocol = "single"
